@@ -61,12 +61,25 @@ Shape(n, f) ==
                              arr |-> [type |-> T("array", f), items |-> [type |-> T("object", f), additionalProperties |-> AnyS(f)]]])
         @@ Key2("$defs", "definitions", "ldefs" \in f, f, [k2 |-> [type |-> T("integer", f)]])
 
+    [] n = 4 ->
+        \* a recursive document ("$ref": "#" under its id) with non-ASCII text in a description, a pattern and enum
+        \* values (t_... stand for texts the harness holds: SANY strings are ASCII)
+        Key2("$id", "id", "lid" \in f, f, "https://example.com/s4")
+        @@ ("type" :> T("object", f))
+        @@ ("properties" :> [parent |-> ("$ref" :> [prefix |-> "", name |-> ""]),
+                             kids   |-> [type |-> T("array", f), items |-> ("$ref" :> [prefix |-> "", name |-> ""])],
+                             value  |-> [type |-> T("integer", f)],
+                             label  |-> [type |-> T("string", f), description |-> "t_desc", pattern |-> "t_pat"],
+                             kind   |-> [enum |-> <<"t_cafe", "t_naive", "t_plain">>]])
+        @@ ("required" :> <<"value">>)
+
 Applicable(n) == CASE n = 1 -> Switches \ {"ldeps"} [] n = 2 -> Switches \ {"lid"} [] n = 3 -> {"ldefs", "tlist", "tsub", "both"}
+                   [] n = 4 -> {"lid", "tlist", "both"}
 
 \* design-level: the parser's normal form is spelling-independent
 DesignOK == ParseSchema(Shape(shape, F)) = ParseSchema(Shape(shape, {}))
 
-Init == shape \in 1..3 /\ F = {"?"}
+Init == shape \in 1..4 /\ F = {"?"}
 Pick == F = {"?"} /\ F' \in SUBSET Applicable(shape) /\ UNCHANGED shape
 Next == Pick
 Spec == Init /\ [][Next]_vars
